@@ -172,6 +172,10 @@ func runOne(t *testing.T, dir, profile string, seed int64, steps int, replay [][
 		default:
 			if f, ok := engines[engine]; ok {
 				f(t, tape, w, variant, steps, &out)
+				if out.v != nil && os.Getenv("VERIF_DUMP_ON_VIOL") != "" {
+					d, _ := w.Dump(false)
+					out.trace = append(out.trace, strings.Split(d, "\n")...)
+				}
 			} else {
 				panic("HARNESS: unknown engine " + engine)
 			}
